@@ -6,12 +6,6 @@ a checked 128-bit magnitude or the result of a plain i128 operation.  This disch
 namespace Fpdec.Kernels
 open Fpdec Fpdec.Model
 
-theorem bind_inv {α β} {o : Outcome α} {f : α → Outcome β} {v : β} (h : (o >>= f) = .ok v) :
-    ∃ a, o = .ok a ∧ f a = .ok v := by
-  cases o with
-  | ok a => exact ⟨a, rfl, h⟩
-  | panic k => cases h
-
 theorem nat_fits (n : Nat) (h : ¬ ((n : Int) > I128_MAX)) : fitsI128 (n : Int) = true := by
   rw [fitsI128_iff]; unfold I128_MIN I128_MAX at *; omega
 
